@@ -878,6 +878,12 @@ pub enum Edit {
     LenField { idx: usize, delta: i64, fix_parents: bool },
     /// insert raw bytes as a new last child of superbox `into` (e.g. an unknown or `free` box)
     InsertRaw { into: usize, raw: Vec<u8>, fix: bool },
+    /// insert raw bytes (a complete box) right before box `idx`
+    InsertBefore { idx: usize, raw: Vec<u8>, fix: bool },
+    /// insert raw bytes (a complete box) right after box `idx`
+    InsertAfter { idx: usize, raw: Vec<u8>, fix: bool },
+    /// replace box `idx` by raw bytes (a complete box)
+    Replace { idx: usize, raw: Vec<u8>, fix: bool },
     /// rewrite the header of box `idx` as LBox=1 + XLBox (grows by 8 bytes)
     ToXlBox { idx: usize, fix: bool },
     /// set LBox of box `idx` to 0 ("to end of container")
@@ -896,6 +902,9 @@ impl Edit {
             Edit::Toggles { .. } => "toggles",
             Edit::LenField { .. } => "len-field",
             Edit::InsertRaw { .. } => "insert-raw",
+            Edit::InsertBefore { .. } => "insert-before",
+            Edit::InsertAfter { .. } => "insert-after",
+            Edit::Replace { .. } => "replace",
             Edit::ToXlBox { .. } => "to-xlbox",
             Edit::ZeroLen { .. } => "zero-len",
         }
@@ -1030,6 +1039,21 @@ pub fn apply_edit(bytes: &[u8], boxes: &[BoxInfo], e: &Edit) -> Option<Vec<u8>> 
             }
             Some(splice(bytes, boxes, t.end(), 0, raw, if *fix { Some(*into) } else { None }))
         }
+        Edit::InsertBefore { idx, raw, fix } => {
+            let b = get(*idx)?;
+            b.parent?;
+            Some(splice(bytes, boxes, b.start, 0, raw, if *fix { b.parent } else { None }))
+        }
+        Edit::InsertAfter { idx, raw, fix } => {
+            let b = get(*idx)?;
+            b.parent?;
+            Some(splice(bytes, boxes, b.end(), 0, raw, if *fix { b.parent } else { None }))
+        }
+        Edit::Replace { idx, raw, fix } => {
+            let b = get(*idx)?;
+            b.parent?;
+            Some(splice(bytes, boxes, b.start, b.len, raw, if *fix { b.parent } else { None }))
+        }
         Edit::ToXlBox { idx, fix } => {
             let b = get(*idx)?;
             if b.header_len != 8 || b.to_end {
@@ -1070,7 +1094,15 @@ pub fn edit_span(boxes: &[BoxInfo], e: &Edit) -> Option<Span> {
             let (x, y) = (g(a)?, g(b)?);
             Span::new(x.start.min(y.start), x.end().max(y.end()))
         }
-        Edit::Duplicate { idx, .. } | Edit::Delete { idx, .. } | Edit::CopyInto { idx, .. } => g(idx)?.span(),
+        Edit::Duplicate { idx, .. } | Edit::Delete { idx, .. } | Edit::CopyInto { idx, .. } | Edit::Replace { idx, .. } => g(idx)?.span(),
+        Edit::InsertBefore { idx, .. } => {
+            let b = g(idx)?;
+            Span::new(b.start, b.start)
+        }
+        Edit::InsertAfter { idx, .. } => {
+            let b = g(idx)?;
+            Span::new(b.end(), b.end())
+        }
         Edit::LabelChar { jumd, at, .. } => {
             let l = g(jumd)?.desc.as_ref()?.label?;
             Span::new(l.start + at, l.start + at + 1)
